@@ -365,6 +365,14 @@ def run_glom(case, entry='glom'):
             res = glom.Spec(spec, scope=kw.get('scope', {})).glom(target, scope={})
         elif entry == 'spec-own':
             res = glom.Spec(spec, scope=kw.get('scope', {})).glom(target)
+        elif entry == 'twice':
+            # the SAME spec object evaluated a second time (on a fresh copy of the target): nothing of the first call is left in it
+            try:
+                glom.glom(r.build(case['target']), spec, **({'scope': {k: r.build(v) for k, v in case['scope']}} if case.get('scope') else {}))
+            except Exception:
+                pass
+            del pyval.CALL_LOG[:]
+            res = glom.glom(target, spec, **kw)
         elif entry == 'spec-reuse':
             sp = glom.Spec(spec)
             try:
